@@ -159,6 +159,9 @@ impl Scenario for C14 {
             }
             v.push(Act::Pay { token, spender: 0, amt: Amt::One, auth: false });
             v.push(Act::Add { token, spender: 0, amt: Amt::One, auth: false });
+            // one more than the named spender U2 holds, signed for by U2 and by the sender U1 (who holds enough)
+            v.push(Act::Pay { token, spender: 1, amt: Amt::AllPlus1, auth: false });
+            v.push(Act::Add { token, spender: 1, amt: Amt::AllPlus1, auth: false });
             // the gas service named as its own payer (holder index 3): nobody can sign for it
             v.push(Act::Pay { token, spender: 3, amt: Amt::One, auth: false });
             v.push(Act::Add { token, spender: 3, amt: Amt::One, auth: false });
@@ -217,8 +220,11 @@ impl Scenario for C14 {
                 let x = amt_of(*amt, m.bal[*token][*spender]);
                 let tok = token_scval(&w.sc_addr(&ctx.tokens[*token]), x);
                 let sp = if *spender == 3 { ctx.gas.clone() } else { ctx.who[*spender].clone() };
-                let sender = ctx.who[5].clone();
-                let signers = if *auth { vec![sp.clone()] } else { vec![sender.clone()] };
+                // the sender named is the stranger, except where U2 is to pay on somebody else's word:
+                // there it is U1, who holds funds of its own
+                let sender = if *spender == 1 && !*auth { ctx.who[0].clone() } else { ctx.who[5].clone() };
+                // (there both U2 and the sender sign: what is asked for is more than U2 holds)
+                let signers = if *auth { vec![sp.clone()] } else if *spender == 1 { vec![sp.clone(), sender.clone()] } else { vec![sender.clone()] };
                 let call = if pay {
                     w.call(
                         &ctx.gas,
@@ -417,7 +423,7 @@ fn main() {
         let thorough = tier == "thorough";
         let mut o = Opts::new(tier, if thorough { 10 } else { 4 });
         o.min_depth = 3;
-        o.rule = "three configurations (owner and collector distinct / the same address at deployment / the service already holding i128::MAX - 5 of two tokens); all sequences over ownership transfer to the stranger, pay_gas / add_gas (2 tokens: stellar asset contract and native interchain token; spenders U1, U2; amounts -1, 0, 1, balance, balance+1; authorised by the spender or by someone else; also naming the gas service itself as payer) and collect_fees / refund (also for the empty message id; amounts -1, 0, 1, held, held+1; by collector, owner, stranger (who may have become the owner), and on the collector's authorisation for another amount; to a receiver, to the collector itself, to the gas service itself, and to an address that a third token refuses; that third token ignores the sign of amounts, and negative / zero payments in it must be refused by the service itself); after every new state all balances of both tokens and the equation held == paid + added - collected - refunded are compared with the model, collect_fees / refund of 1 are tried on the authorisation of each of the six principals (accepted iff gas_collector() names that principal), and every exported function of the gas service that the check does not drive by name is called with nobody's authorisation (nothing may change) and with everybody's (after which gas_collector() must still name the only principal that can pay out)".into();
+        o.rule = "three configurations (owner and collector distinct / the same address at deployment / the service already holding i128::MAX - 5 of two tokens); all sequences over ownership transfer to the stranger, pay_gas / add_gas (2 tokens: stellar asset contract and native interchain token; spenders U1, U2; amounts -1, 0, 1, balance, balance+1; authorised by the spender or by the sender (and, for one more than the spender holds, by both, the sender holding enough); also naming the gas service itself as payer) and collect_fees / refund (also for the empty message id; amounts -1, 0, 1, held, held+1; by collector, owner, stranger (who may have become the owner), and on the collector's authorisation for another amount; to a receiver, to the collector itself, to the gas service itself, and to an address that a third token refuses; that third token ignores the sign of amounts, and negative / zero payments in it must be refused by the service itself); after every new state all balances of both tokens and the equation held == paid + added - collected - refunded are compared with the model, collect_fees / refund of 1 are tried on the authorisation of each of the six principals (accepted iff gas_collector() names that principal), and every exported function of the gas service that the check does not drive by name is called with nobody's authorisation (nothing may change) and with everybody's (after which gas_collector() must still name the only principal that can pay out)".into();
         (C14 { thorough }, o)
     });
 }
